@@ -26,7 +26,7 @@ ASSUMPTIONS = ["depth = longest chain of nested grammar-class instances; lists, 
                "a limit between the true minimum and the (conservative) reported minimum may be rejected up-front or served, never failed midway",
                "grammars in this check have no failing refinements (no Flaky / infeasible Dependent), so 'completes without error' is unconditional"]
 
-FEAT = features(list=3, annlist=3, union=2, tuple=1, nested=2, cls=8, refined=2, standalone=1, concrete_start=1, infeasible=0)
+FEAT = features(list=3, annlist=3, union=2, tuple=1, nested=2, cls=8, refined=2, standalone=1, concrete_start=1, infeasible=0, nested_generic=1)
 
 
 def budget(tier):
@@ -79,12 +79,15 @@ def run(ctx):
             ctx.stat("foreign_failure:no-min-depth")
             return
         inf = rm >= 10**6
+        lib_inf = lm >= 10**6  # the library believes some symbol cannot reach a terminal (one-element-list convention)
         if inf:
             d = H.pick([1, 3, 10, 50])
+        elif lib_inf:
+            d = H.pick([rm, rm + 1, rm + 3, rm - 1])
         else:
             d = H.weighted([(rm, 4), (rm + 1, 2), (rm + 2, 2), (rm + 4, 1), (max(lm, rm), 4), (max(lm, rm) + 1, 2),
                             (rm - 1, 3), (rm - 2, 1), (lm - 1, 1), (0, 1)])
-        zone = "infeasible" if (inf or d < rm) else ("feasible" if d >= max(lm, rm) else "conservative")
+        zone = "infeasible" if (inf or d < rm) else ("feasible" if (d >= max(lm, rm) and not lib_inf) else "conservative")
         ctx.stat("zone:" + zone)
         ctx.log("limits", "ref", rm, "lib", lm, "d", d, zone)
         draws0 = w.random.draws
